@@ -54,5 +54,70 @@ def races(c, runner):
         shutil.rmtree(base, ignore_errors=True)
 
 
+def near_keys(c, runner):
+    """a requester whose key is ALMOST the victim's: equal except for one bit, for the ASCII-case bit of letter-valued
+    bytes, for its first or last byte, byte-reversed, or equal as upper/lower-case hex text. The request names the victim's
+    events by id and by address; whatever it replies, the victim's events stay retrievable, unmarked, and a later (older)
+    event of the victim at the address is not refused as deleted (oracle: the property text)."""
+    rng = c.rng
+    Q = c.tier == 'quick'
+    base = os.path.join(RUNDIR, 'C10k-%d' % os.getpid())
+    os.makedirs(base, exist_ok=True)
+    try:
+        lines, meta = [], []
+        victims = [bytes([0x41]) * 32, bytes([0x61]) * 32, bytes(range(0x41, 0x61)), bytes([0x5a, 0x7a] * 16), AUTHORS[0]]
+        for rep in range(2 if Q else 20):
+            for va in victims:
+                near = [bytes([va[0] ^ 0x20]) + va[1:], va[:31] + bytes([va[31] ^ 0x20]), va[:31] + bytes([va[31] ^ 1]),
+                        bytes(x ^ 0x20 if (0x41 <= x <= 0x5a or 0x61 <= x <= 0x7a) else x for x in va), va[::-1],
+                        bytes([va[0] ^ 0x80]) + va[1:]]
+                for fa in near:
+                    if fa == va:
+                        continue
+                    g = HistGen(rng, 'C10')
+                    kind = rng.choice([30023, 10002, 0])
+                    d = rng.choice([b'x', b'']) if kind == 30023 else b''
+                    tg = [[b'd', d]] if kind == 30023 else []
+                    v1 = g.new_event(kind=kind, pk=va, t=1000, tags=tg, content=b'victim')
+                    v0 = g.new_event(kind=kind, pk=va, t=900, tags=tg, content=b'victim, older')
+                    note = g.new_event(kind=1, pk=va, t=1000, tags=[], content=b'note')
+                    addr = str(kind).encode() + b':' + va.hex().encode() + b':' + d
+                    tags = rng.choice([[[b'a', addr]], [[b'a', addr], [b'e', note['id'].hex().encode()]], [[b'e', v1['id'].hex().encode()], [b'a', addr]],
+                                       [[b'a', addr.upper() if rng.random() < 0.5 else addr]]])
+                    req = g.new_event(kind=5, pk=fa, t=2000, tags=tags, content=b'')
+                    start = len(lines)
+                    lines += ['NEW %s -' % os.path.join(base, 'n%d' % len(meta)), 'STO ' + ev_tok(v1), 'STO ' + ev_tok(note), 'STO ' + ev_tok(req),
+                              'HAS ' + hx(v1['id']), 'HAS ' + hx(note['id']), 'DEL ' + hx(v1['id']), 'DEL ' + hx(note['id']),
+                              'NAD %d %s %s' % (kind, hx(va), hx(d)), 'REM ' + hx(v1['id']), 'STO ' + ev_tok(v0), 'RMD']
+                    meta.append((start, va, fa))
+        out = c.worker.run(lines)
+        c.evaluations += len(meta)
+        for start, va, fa in meta:
+            r = out[start:start + 12]
+            rep = lines[start:start + 11]
+            rq, h1, h2, d1, d2, nad, rem, older = r[3], r[4], r[5], r[6], r[7], r[8], r[9], r[10]
+            c.count('near_key_request:' + rq.split(' ')[0])
+            why = None
+            if h1 != '1' or h2 != '1':
+                why = "the victim's event is no longer retrievable"
+            elif d1 != '0' or d2 != '0':
+                why = "the victim's event carries a deletion marker"
+            elif nad not in ('none', 'no'):
+                why = "the victim's address carries a deletion marker (%s)" % nad[:20]
+            elif not older.startswith('ok'):
+                why = "a later event of the victim at the address is refused (%s)" % older[:12]
+            if why:
+                c.violation('oracle', 'a deletion request (reply %s) by a key that differs from the victim\'s key only slightly: %s' % (rq[:10], why), rep)
+            else:
+                c.nontriv(('near', hx(va)[:8], hx(fa)[:8], rq[:8]))
+    finally:
+        shutil.rmtree(base, ignore_errors=True)
+
+
+def both(c, runner):
+    races(c, runner)
+    near_keys(c, runner)
+
+
 def run():
-    run_store('C10', THEOREMS, """Focus: kind-5 requests with 0-5 e/a tags in every order mixing own / foreign / absent / malformed targets (bad hex, two-part address, non-numeric or +-prefixed kind, upper-case hex, address with a stray identifier); oracle: every event of another author that was retrievable before the request is retrievable and unmarked after it, no marker of another author's address changes, and a request naming a foreign target is refused as a whole.""", {'reply', 'live', 'markers', 'foreign'}, relevant={'STO', 'HAS', 'DEL', 'NAD'}, extra=races)
+    run_store('C10', THEOREMS, """Focus: kind-5 requests with 0-5 e/a tags in every order mixing own / foreign / absent / malformed targets (bad hex, two-part address, non-numeric or +-prefixed kind, upper-case hex, address with a stray identifier); oracle: every event of another author that was retrievable before the request is retrievable and unmarked after it, no marker of another author's address changes, and a request naming a foreign target is refused as a whole.""", {'reply', 'live', 'markers', 'foreign'}, relevant={'STO', 'HAS', 'DEL', 'NAD'}, extra=both)
